@@ -389,7 +389,7 @@ fn run_once<N: Notified>(c: OnceCase, rt: Runtime) -> CaseResult {
 
 // ---------------------------------------------------------------------------------------------
 
-fn op_strategy() -> impl Strategy<Value = Op> {
+pub fn op_strategy() -> impl Strategy<Value = Op> {
     prop_oneof![
         4 => Just(Op::Set),
         1 => Just(Op::SetClone),
@@ -461,6 +461,11 @@ pub fn run(ctx: &Ctx) -> i32 {
             }
         }
     }
+    crate::fuzzrun::golden("notified", &mut stats, &mut viol);
+    if ctx.tier == vcommon::ev::Tier::Thorough {
+        let seeds: Vec<Vec<u8>> = (0..32u8).map(|i| (0..(8 + i as usize * 7)).map(|k| (k as u8).wrapping_mul(29).wrapping_add(i.wrapping_mul(13))).collect()).collect();
+        crate::fuzzrun::campaign(ctx, "notified", crate::fuzzrun::fuzz_secs(180), &seeds, &mut stats, &mut viol);
+    }
     Report::new(RULE)
         .assume("streams are polled by hand with a no-op waker; a single Pending is taken as 'nothing available now' (both channel implementations return Pending only when their queue is empty)")
         .extra("enumerated_operation_lists", json!(en.len()))
@@ -468,6 +473,9 @@ pub fn run(ctx: &Ctx) -> i32 {
 }
 
 pub fn replay(lane: &str, case: serde_json::Value) -> CaseResult {
+    if lane == "fuzz" {
+        return crate::fuzzrun::replay(&case);
+    }
     let mut stats = Stats::default();
     if lane == "one-shot" {
         let c: OnceCase = serde_json::from_value(case["case"].clone()).map_err(|e| Fail::new("bad-replay", e.to_string()))?;
